@@ -417,6 +417,17 @@ class PrettyPrinter:
                 options_list = attr_props["anyOf"]
             else:
                 options_list = attr_props["allOf"]
+
+            # alternatives may be nested one level deeper e.g. allOf: [expression.json -> anyOf: [...]]
+            flat_options = []
+            for option in options_list:
+                for comb in ("oneOf", "anyOf", "allOf"):
+                    if comb in option:
+                        flat_options += option[comb]
+                        break
+                else:
+                    flat_options.append(option)
+            options_list = flat_options
             if self.quoter.is_string(value):
                 if self.quoter.in_parenthesis(value):
                     pass
